@@ -38,7 +38,7 @@ structure Stages (R : St → St → Prop) : Prop extends StagesA R where
   completeCall : ∀ (s : St) (call : Call), call ∈ s.calls → R s (Pool.completeCall s call)
   detReset : ∀ (s : St) (slot : Slot),
     R s (modRef s slot fun r => { r with lastResp := s.now, deCalls := 0, refreshCnt := 0 })
-  deInc : ∀ (s : St) (slot : Slot), R s (modRef s slot fun r => { r with deCalls := r.deCalls + 1 })
+  deInc : ∀ (s : St) (slot : Slot), R s (modRef s slot fun r => { r with deCalls := satInc r.deCalls })
   bindAll : ∀ (s : St) (keys : List String) (slot : Slot) (r : RefSt), getRef s slot = some r →
     R s (keys.foldl (fun s k => bindSubConn s k r.subConn) s)
   unbind : ∀ (s : St) (key : String), R s (unbindSubConn s key)
